@@ -310,11 +310,9 @@ Definition o_result (o : ostate) (r : obs) : ostate :=
   | OStreamErr a =>
     (* C09: names the activity of the call that failed, which is the last call of the poll *)
     let ok := match o_errcall o with Some a' => activity_eqb a a' | None => false end in
-    (* the request just read, if any, is dropped together with its armed guard *)
-    let o1 := match o_pend o with
-              | Some (id, _, _, _) => accept_id id o
-              | None => o end in
-    mark_err (with_pend (chk09 o1 ok) None)
+    (* the request just read, if any, is dropped together with its armed guard; nothing that
+       happens on the channel is checked after this point (stops_after_error) *)
+    mark_err (with_pend (chk09 o ok) None)
   | _ => mark_bad o
   end.
 
